@@ -196,11 +196,12 @@ def run_history(case):
             model.resolve(new_entry, cand[0][-1])
         else:
             if op.get("absent") or not model.entries:
-                if model.entries and op.get("absent") == "same_time":
-                    # absent, but at the time(s) of an existing entry: only the label differs
+                if model.entries and op.get("absent") in ("same_time", "padded"):
+                    # absent, but at the time(s) of an existing entry: only the label differs (for "padded": by white space only -
+                    # stored labels are trimmed, so an untrimmed one names no stored entry)
                     e0 = model.entries[op["sel"] % len(model.entries)]
-                    entry = tuple(list(e0[:-1]) + [e0[-1] + "_other"])
-                    classes.add("delete_absent_same_time")
+                    entry = tuple(list(e0[:-1]) + [e0[-1] + "_other" if op["absent"] == "same_time" else " " + e0[-1] + "\n"])
+                    classes.add("delete_absent_same_time" if op["absent"] == "same_time" else "delete_absent_label_differs_by_white_space")
                 elif model.is_int:
                     entry = (1000.0 + op["sel"], 1001.5 + op["sel"], "zz")
                 else:
@@ -313,7 +314,7 @@ def histories(draw):
                 ops[-1].update(span_ulp=draw(st.sampled_from(["max", "max", "min"])))
         else:
             ops.append({"op": "delete", "sel": draw(st.integers(0, 7)),
-                        "absent": draw(st.sampled_from([False, False, False, True, "same_time"]))})
+                        "absent": draw(st.sampled_from([False, False, False, True, "same_time", "padded"]))})
             if twins and draw(st.booleans()):
                 ops[-1]["sel"] = -1 - draw(st.integers(0, 2))
     return {"tier": spec, "ops": ops}
